@@ -198,6 +198,18 @@ CHECKS = {
          'interleaved at whole-call granularity; pyserial is absent so the serial driver runs against a fake serial.Serial; '
          'packets arriving before a function\'s first receivePacket are not required to be delivered',
          'DESIGN.md §3 C18', 'E2'),
+ 'C19': ('exploration',
+         'stateless deviation-bounded exploration of per-member thread interleavings of the real Swarm code, over all sizes/failing subsets/argument dictionaries',
+         'The real Swarm runs with instrumented members from its factory argument; the threads started by parallel_safe run '
+         'under the controlled scheduler with scheduling points at every line of the Swarm methods and inside the member '
+         'operations. Enumerated completely: sizes 1..3 (thorough 4) x every failing subset x {sequential, parallel, '
+         'parallel_safe, open_links, open_links twice} x three kinds of argument dictionary, each with every schedule of at '
+         'most 2 deviations (n<=2) / 1 (n=3) in quick and one more in thorough. Oracle: each action exactly once with (scf, '
+         '*args_dict[uri]); sequential in URI order without overlap; parallel_safe returns after all actions finished, '
+         'raises iff one raised with one of the raised errors as __cause__; parallel never raises; failed open closes every '
+         'member after all attempts ended, raises, leaves the swarm closed and re-openable; second open refused.',
+         'members are stand-ins (the statement is about Swarm); argument dictionaries lacking a member entry are outside the statement',
+         'DESIGN.md §3 C19', 'E3'),
 }
 
 ALL = ['C%02d' % i for i in range(1, 21)]
